@@ -32,7 +32,8 @@ RULE = (
     "(tree edited, roDelete merged); get_mos_files == the keys with the prefix and the "
     "suffix in S3 (UTF-8 binary) order, across all pages.  Non-trivial = non-ASCII content, or >= 2 "
     "result pages, or a key lacking the suffix."
-    " Also: bucket names starting with 's' / '3' with decoy buckets, S3 keys with '+', '%XX', blanks and non-ASCII with decoy objects under the decoded names, zero-byte objects in listings, a prefix equal to a full key, str sources that still carry a foreign encoding declaration, CDATA sections, comments inside the root, padded roIDs, file names with shell metacharacters (and matching siblings), documents supplied in another order than their message IDs.")
+    " Also: bucket names starting with 's' / '3' with decoy buckets, S3 keys with '+', '%XX', blanks and non-ASCII with decoy objects under the decoded names, zero-byte objects in listings, a prefix equal to a full key, str sources that still carry a foreign encoding declaration, CDATA sections, comments inside the root, padded roIDs, file names with shell metacharacters (and matching siblings), documents supplied in another order than their message IDs."
+    ' Round 11: a quarter of the constructor-agreement collections hold two different documents sharing a messageID (compared on which messages each constructor holds); ncsID headers differ between documents.')
 ASSUMPTIONS = ['the fake S3 models the ListObjects contract the code relies on: server-side prefix filter, '
                'binary key order, pages of >= 1 key, no Contents entry only when nothing matches']
 MANDATORY = ['source:file', 'source:bytes', 'source:s3', 'xml-declaration', 'non-ascii', 'encoding:latin1', 'encoding:utf16', 'encoding:utf16be', 'pages>=2',
